@@ -32,13 +32,15 @@ import c07_calls as ccall      # noqa: E402
 META = {
     "title": "The compiler is total on arbitrary source text and reports honestly",
     "level": "model_checking",
-    "technique": "TLA+ models of scanner/lineariser balance/includer directives (TLC enumerates the inputs and certifies "
-                 "invalidity), trace validation of every compiler run against the driver model (Total, HonestExit, "
-                 "InvalidDiagnosed)",
+    "technique": "TLA+ models of scanner/lineariser balance/includer directives, of macro expansion (a term calculus) and of "
+                 "function application (positional/default/keyword parameters, overloads, multiple values): TLC enumerates "
+                 "the inputs and certifies invalidity; trace validation of every compiler run against the driver model "
+                 "(Total, HonestExit, InvalidDiagnosed)",
     "design_ref": "DESIGN.md §5 C07, §3.9, §3.7, §10",
     "level_text": "TLC enumerates every input of the bounded families and judges every recorded run as a behaviour of "
                   "TraceTotal.tla (Driver.tla); the families are exhaustive within their bounds",
-    "level_note": "bounded: class strings up to length 4 (quick) / 5 (thorough), sampled mutation positions, finite seeds; "
+    "level_note": "bounded: class strings up to length 4 (quick) / 5 (thorough), sampled mutation positions, finite seeds, macro "
+                  "programs of <= 4 definitions and call shapes of <= 4 parameters (strided in the quick tier); "
                   "validity of arbitrary text is not modelled -- only the stated certificates of invalidity are",
 }
 
@@ -484,7 +486,8 @@ def replay(d):
     inp = cr.Input(det.get("input_class", "enum"), det.get("input_name"), bytes(det["source_bytes"]), det.get("certificates", []),
                    det.get("certificates_as_read"), det.get("features", []), args=args,
                    files={k: bytes(v) for k, v in (det.get("files") or {}).items()})
-    runs = cr.run_inputs(build, [inp], jobs=1, timeout=TIME_BOUND.get(inp.cls, 30), hooks=dt.hooks_present(build))
+    runs = cr.run_inputs(build, [inp], jobs=1, timeout=TIME_BOUND.get(inp.cls, 30), hooks=dt.hooks_present(build),
+                         stack_kb=STACK_KB.get(inp.cls))
     vs, _ = cr.validate(runs, chunk=10, parallel=1)
     print("exit %s, %d error line(s), fault %r, timeout %s -> TLC: %s" % (runs[0].rc, runs[0].errl, runs[0].label.get("fault"),
                                                                       runs[0].timeout, vs[0]))
